@@ -57,7 +57,8 @@ def build (timings : List Timing) (start : DT) (stop : Option DT) (delay skip : 
   let p := argmin (fun (t : Timer) => t.next.inst) timers
   { timers := timers, pending := p, start := start, stop := stop, delay := delay, skip := skip,
     maxAtt := maxAtt, attempts := 0, failed := 0,
-    markDelete := pastStop stop (timers.getD p default).next }
+    -- `first_exec = pending.datetime if delay else start` (job.py `__init__`)
+    markDelete := pastStop stop (if delay then (timers.getD p default).next else start) }
 
 /-- `BaseJob._calc_next_exec(ref)` (job.py:111-131) -/
 def calcNext (j : Job) (ref : DT) : Job :=
